@@ -33,6 +33,10 @@ def run(c):
                 tms = pe.timings(c.seed + i, n_random=1, n_pct=0) if not c.thorough or len(h) > 2 else pe.timings(c.seed + i)
                 for spec in tms:
                     cases.append((params, spec))
+    for i, h in enumerate(pe.TWIN_HISTORIES):
+        params = dict(pe.START["twin"], ops=list(h), recursive=True, paced=True, spell="str")
+        for spec in pe.timings(c.seed + i, n_random=1, n_pct=0):
+            cases.append((params, spec))
     c.note(f"{nh} paced histories of <= {K} operations from the TLC graph of FsGen.tla")
     recs = pe.run_cases(c, cases, "TLC histories")
     pe.validate(c, "C01", recs)
